@@ -194,3 +194,12 @@ func loadSpec(spec *synth.Spec) (*loadedSpec, error) {
 	}
 	return &loadedSpec{ld: ld, an: an, oc: oc}, nil
 }
+
+// loadRoutes type-checks a route file (with its echo stand-in and inner package) in process.
+func loadRoutes(rs *synth.RouteSpec) (*fastload.Loaded, string, error) {
+	ld, err := fastload.Load(rs.Spec())
+	if err != nil {
+		return nil, "", h.Inconcf("synthesised route file does not type-check (synthesiser bug): %v\n%s", err, rs.Text())
+	}
+	return ld, ld.FileName, nil
+}
